@@ -913,205 +913,7 @@ func runC06(c *Ctx) {
 	c.R.RequireMin("R03.7", "Copyright Match literals", n, 1)
 
 	// R06.4 the scheme rewrite (in normalizeToken, or wherever it was inlined)
-	{
-		var sites []*ssa.Call
-		fns := v2Funcs(p)
-		okAll, why := true, ""
-		for _, fn := range fns {
-			for _, call := range core.CallsIn(fn) {
-				cv, isCall := call.(*ssa.Call)
-				if !isCall {
-					continue
-				}
-				n := core.StaticCalleeName(&cv.Call)
-				if n != "strings.ReplaceAll" && n != "strings.Replace" {
-					continue
-				}
-				from, ok1 := core.ConstString(cv.Call.Args[1])
-				to, ok2 := core.ConstString(cv.Call.Args[2])
-				if !ok1 || !ok2 || !strings.Contains(from, "http") {
-					continue
-				}
-				sites = append(sites, cv)
-				if n == "strings.Replace" {
-					if k, isK := core.ConstInt(cv.Call.Args[3]); !isK || k >= 0 {
-						okAll, why = false, "strings.Replace with a non-negative count does not rewrite every occurrence in the token"
-					}
-				}
-				if strings.Contains(to, from) {
-					okAll, why = false, fmt.Sprintf("replacing %q by %q is not idempotent", from, to)
-				}
-				// the rewritten string must be what the function hands on (returned or interned), on every path
-				if fn.Signature.Results().Len() == 1 && isString(fn.Signature.Results().At(0).Type()) {
-					for _, b := range fn.Blocks {
-						if ret, isRet := b.Instrs[len(b.Instrs)-1].(*ssa.Return); isRet && len(ret.Results) == 1 && ret.Results[0] != ssa.Value(cv) {
-							// the loop form: a phi of the parameter (nothing to rewrite) and the rewritten value
-							loopForm := false
-							if ph, isPhi := ret.Results[0].(*ssa.Phi); isPhi {
-								loopForm = true
-								for _, e := range ph.Edges {
-									if e != ssa.Value(cv) && e != ssa.Value(ph) {
-										if _, isPrm := e.(*ssa.Parameter); !isPrm {
-											loopForm = false
-										}
-									}
-								}
-							}
-							if !loopForm {
-								okAll, why = false, "a path returns "+ret.Results[0].String()+" instead of the rewritten token"
-							}
-						}
-					}
-				}
-			}
-		}
-		// the one-pass form: re.ReplaceAllString(x, R) with re compiled from the constant R+c+"+" (c one letter): every
-		// occurrence of R followed by one or more c becomes R. The result contains no R+c - and so is a fixed point of
-		// rewriting R+c to R - provided the first letter of R occurs nowhere else in R+c (no occurrence can then overlap a
-		// rewritten stretch except at its first letter, where R is followed by something other than c).
-		onePass := map[*ssa.Call]bool{}
-		for _, fn := range fns {
-			for _, call := range core.CallsIn(fn) {
-				cv, isCall := call.(*ssa.Call)
-				if !isCall || core.StaticCalleeName(&cv.Call) != "(*regexp.Regexp).ReplaceAllString" || len(cv.Call.Args) != 3 {
-					continue
-				}
-				to, okTo := core.ConstString(cv.Call.Args[2])
-				pat, okPat := regexpPatternOf(p, cv.Call.Args[0])
-				if !okTo || !okPat || !strings.Contains(pat, "http") {
-					continue
-				}
-				sites = append(sites, cv)
-				onePass[cv] = true
-				good := len(pat) == len(to)+2 && strings.HasPrefix(pat, to) && pat[len(pat)-1] == '+' && lettersLower(pat[:len(pat)-1]) && len(to) > 0 &&
-					strings.Count(pat[:len(pat)-1], to[:1]) == 1
-				if !good {
-					okAll, why = false, fmt.Sprintf("replacing the matches of %q by %q is not recognised as rewriting the secure scheme to a fixed point", pat, to)
-				}
-				if fn.Signature.Results().Len() == 1 && isString(fn.Signature.Results().At(0).Type()) {
-					for _, b := range fn.Blocks {
-						if ret, isRet := b.Instrs[len(b.Instrs)-1].(*ssa.Return); isRet && len(ret.Results) == 1 && ret.Results[0] != ssa.Value(cv) {
-							// the only other thing returned is the parameter itself, behind a test that it does not contain the scheme
-							_, isPrm := ret.Results[0].(*ssa.Parameter)
-							guarded := false
-							for _, ft := range core.FactsAt(b) {
-								if cc, isC := ft.Cond.(*ssa.Call); isC && !ft.Truth && core.StaticCalleeName(&cc.Call) == "strings.Contains" && cc.Call.Args[0] == ret.Results[0] {
-									if k, isK := core.ConstString(cc.Call.Args[1]); isK && k == pat[:len(pat)-1] {
-										guarded = true
-									}
-								}
-							}
-							if !isPrm || !guarded {
-								okAll, why = false, "a path returns "+ret.Results[0].String()+" instead of the rewritten token"
-							}
-						}
-					}
-				}
-			}
-		}
-		pos := "v2/tokenizer.go"
-		if len(sites) > 0 {
-			pos = p.Pos(sites[0].Pos())
-		}
-		if len(sites) == 0 {
-			okAll, why = false, "no replace-all of the https scheme is applied to a word before it is interned"
-		}
-		// the rewrite runs to a fixed point (removing an "s" can bring the next one up) ...
-		for _, cv := range sites {
-			if onePass[cv] {
-				c.R.OK("R06.4", "the scheme rewrite is repeated until nothing is left to rewrite", p.Pos(cv.Pos()), "one pass over the matches of scheme+\"s+\": nothing is left to rewrite")
-				continue
-			}
-			from, _ := core.ConstString(cv.Call.Args[1])
-			fix := false
-			for _, ft := range core.FactsAt(cv.Block()) {
-				if call, isCall := ft.Cond.(*ssa.Call); isCall && ft.Truth && core.StaticCalleeName(&call.Call) == "strings.Contains" {
-					if k, isK := core.ConstString(call.Call.Args[1]); isK && k == from {
-						fix = true
-					}
-				}
-			}
-			c.R.Check(fix, "R06.4", "the scheme rewrite is repeated until nothing is left to rewrite", p.Pos(cv.Pos()), "ReplaceAll runs in a loop guarded by strings.Contains of the same constant",
-				"one pass of the rewrite can leave a new occurrence behind (\"httpss\" -> \"https\"): tokenizing the rewritten word again changes it, so the normalised text does not match like the original")
-		}
-		// ... and is applied to the cleaned word too: stripping punctuation can create a new occurrence
-		// ("http://spdx.org" -> "httpspdxorg")
-		if ct := p.Func(v2pkg, "cleanupToken"); ct != nil {
-			rewriteFn := map[*ssa.Function]bool{}
-			for _, cv := range sites {
-				rewriteFn[cv.Parent()] = true
-			}
-			// wordThroughRewrite(f): every word f returns went through the rewrite (in f itself or in a helper it returns
-			// the result of); constants, table entries and the number path cannot contain the scheme
-			nRet := 0
-			var through func(f *ssa.Function, depth int, report bool) bool
-			through = func(f *ssa.Function, depth int, report bool) bool {
-				if depth > 3 || len(f.Blocks) == 0 {
-					return false
-				}
-				set := map[ssa.Value]bool{}
-				for _, call := range core.CallsIn(f) {
-					cv, isCall := call.(*ssa.Call)
-					if !isCall {
-						continue
-					}
-					g := cv.Call.StaticCallee()
-					switch {
-					case g != nil && rewriteFn[g]:
-						set[cv] = true
-					case rewriteFn[f] && (isCallTo(cv, "strings.ReplaceAll") || onePass[cv]):
-						set[cv] = true
-					case g != nil && g != f && core.FuncPkgPath(g) == v2pkg && g.Signature.Results().Len() == 1 && isString(g.Signature.Results().At(0).Type()) && through(g, depth+1, false):
-						set[cv] = true
-					}
-				}
-				okAll := true
-				for _, b := range f.Blocks {
-					ret, isRet := b.Instrs[len(b.Instrs)-1].(*ssa.Return)
-					if !isRet || len(ret.Results) != 1 {
-						continue
-					}
-					r := ret.Results[0]
-					if _, isConst := r.(*ssa.Const); isConst {
-						continue
-					}
-					if ex, isEx := r.(*ssa.Extract); isEx {
-						if _, isLk := ex.Tuple.(*ssa.Lookup); isLk {
-							continue
-						}
-					}
-					if _, isLk := r.(*ssa.Lookup); isLk {
-						continue
-					}
-					numberPath := false
-					for _, ft := range core.FactsAt(b) {
-						if call, isCall := ft.Cond.(*ssa.Call); isCall && ft.Truth && core.StaticCalleeName(&call.Call) == "unicode.IsDigit" {
-							numberPath = true
-						}
-					}
-					if numberPath {
-						continue
-					}
-					dep := dependsOnAnyThroughPhi(r, set, 0)
-					if report {
-						nRet++
-						c.R.Check(dep, "R06.4", "cleanupToken: the cleaned word passes through the scheme rewrite before it is returned", p.Pos(ret.Pos()), "the returned word is the result of the rewrite on every path",
-							"stripping the punctuation out of a URL can create a new \"https\" (\"http://spdx.org\" -> \"httpspdxorg\") that the rewrite, applied only to the raw word, never sees: Normalize writes that word out and tokenizing it again rewrites it, so the normalised text matches differently from the original")
-					}
-					if !dep {
-						okAll = false
-					}
-				}
-				return okAll
-			}
-			through(ct, 0, true)
-			c.R.RequireMin("R06.4", "word-returning paths of cleanupToken", nRet, 1)
-		}
-		if okAll {
-			why = fmt.Sprintf("%d strings.ReplaceAll site(s) on the word that is interned", len(sites))
-		}
-		c.R.Check(okAll, "R06.4", "every occurrence of the https scheme inside a token is rewritten, idempotently", pos, why, why+": a URL whose scheme is not at the start of the token (e.g. \"(https://...\") is not normalised")
-	}
+	checkSchemeRewrite(c, p)
 
 	// R06.5 token text provenance (by role: wherever cleanupToken is called)
 	if ct := p.Func(v2pkg, "cleanupToken"); c.R.Anchor(ct != nil, "v2.cleanupToken") {
@@ -1275,6 +1077,208 @@ func checkFlagsSurviveRefill(c *Ctx, p *core.Prog) {
 		}
 	}
 	c.R.RequireMin("R06.3", "state variables of the rune loop", n, 2)
+}
+
+// checkSchemeRewrite: R06.4 (shared by C06 and C11). The https->http rewrite applies to every occurrence in a token, runs to a
+// fixed point and is applied to the cleaned word as well, so that a cleaned word is a fixed point of the tokenizer.
+func checkSchemeRewrite(c *Ctx, p *core.Prog) {
+	var sites []*ssa.Call
+	fns := v2Funcs(p)
+	okAll, why := true, ""
+	for _, fn := range fns {
+		for _, call := range core.CallsIn(fn) {
+			cv, isCall := call.(*ssa.Call)
+			if !isCall {
+				continue
+			}
+			n := core.StaticCalleeName(&cv.Call)
+			if n != "strings.ReplaceAll" && n != "strings.Replace" {
+				continue
+			}
+			from, ok1 := core.ConstString(cv.Call.Args[1])
+			to, ok2 := core.ConstString(cv.Call.Args[2])
+			if !ok1 || !ok2 || !strings.Contains(from, "http") {
+				continue
+			}
+			sites = append(sites, cv)
+			if n == "strings.Replace" {
+				if k, isK := core.ConstInt(cv.Call.Args[3]); !isK || k >= 0 {
+					okAll, why = false, "strings.Replace with a non-negative count does not rewrite every occurrence in the token"
+				}
+			}
+			if strings.Contains(to, from) {
+				okAll, why = false, fmt.Sprintf("replacing %q by %q is not idempotent", from, to)
+			}
+			// the rewritten string must be what the function hands on (returned or interned), on every path
+			if fn.Signature.Results().Len() == 1 && isString(fn.Signature.Results().At(0).Type()) {
+				for _, b := range fn.Blocks {
+					if ret, isRet := b.Instrs[len(b.Instrs)-1].(*ssa.Return); isRet && len(ret.Results) == 1 && ret.Results[0] != ssa.Value(cv) {
+						// the loop form: a phi of the parameter (nothing to rewrite) and the rewritten value
+						loopForm := false
+						if ph, isPhi := ret.Results[0].(*ssa.Phi); isPhi {
+							loopForm = true
+							for _, e := range ph.Edges {
+								if e != ssa.Value(cv) && e != ssa.Value(ph) {
+									if _, isPrm := e.(*ssa.Parameter); !isPrm {
+										loopForm = false
+									}
+								}
+							}
+						}
+						if !loopForm {
+							okAll, why = false, "a path returns "+ret.Results[0].String()+" instead of the rewritten token"
+						}
+					}
+				}
+			}
+		}
+	}
+	// the one-pass form: re.ReplaceAllString(x, R) with re compiled from the constant R+c+"+" (c one letter): every
+	// occurrence of R followed by one or more c becomes R. The result contains no R+c - and so is a fixed point of
+	// rewriting R+c to R - provided the first letter of R occurs nowhere else in R+c (no occurrence can then overlap a
+	// rewritten stretch except at its first letter, where R is followed by something other than c).
+	onePass := map[*ssa.Call]bool{}
+	for _, fn := range fns {
+		for _, call := range core.CallsIn(fn) {
+			cv, isCall := call.(*ssa.Call)
+			if !isCall || core.StaticCalleeName(&cv.Call) != "(*regexp.Regexp).ReplaceAllString" || len(cv.Call.Args) != 3 {
+				continue
+			}
+			to, okTo := core.ConstString(cv.Call.Args[2])
+			pat, okPat := regexpPatternOf(p, cv.Call.Args[0])
+			if !okTo || !okPat || !strings.Contains(pat, "http") {
+				continue
+			}
+			sites = append(sites, cv)
+			onePass[cv] = true
+			good := len(pat) == len(to)+2 && strings.HasPrefix(pat, to) && pat[len(pat)-1] == '+' && lettersLower(pat[:len(pat)-1]) && len(to) > 0 &&
+				strings.Count(pat[:len(pat)-1], to[:1]) == 1
+			if !good {
+				okAll, why = false, fmt.Sprintf("replacing the matches of %q by %q is not recognised as rewriting the secure scheme to a fixed point", pat, to)
+			}
+			if fn.Signature.Results().Len() == 1 && isString(fn.Signature.Results().At(0).Type()) {
+				for _, b := range fn.Blocks {
+					if ret, isRet := b.Instrs[len(b.Instrs)-1].(*ssa.Return); isRet && len(ret.Results) == 1 && ret.Results[0] != ssa.Value(cv) {
+						// the only other thing returned is the parameter itself, behind a test that it does not contain the scheme
+						_, isPrm := ret.Results[0].(*ssa.Parameter)
+						guarded := false
+						for _, ft := range core.FactsAt(b) {
+							if cc, isC := ft.Cond.(*ssa.Call); isC && !ft.Truth && core.StaticCalleeName(&cc.Call) == "strings.Contains" && cc.Call.Args[0] == ret.Results[0] {
+								if k, isK := core.ConstString(cc.Call.Args[1]); isK && k == pat[:len(pat)-1] {
+									guarded = true
+								}
+							}
+						}
+						if !isPrm || !guarded {
+							okAll, why = false, "a path returns "+ret.Results[0].String()+" instead of the rewritten token"
+						}
+					}
+				}
+			}
+		}
+	}
+	pos := "v2/tokenizer.go"
+	if len(sites) > 0 {
+		pos = p.Pos(sites[0].Pos())
+	}
+	if len(sites) == 0 {
+		okAll, why = false, "no replace-all of the https scheme is applied to a word before it is interned"
+	}
+	// the rewrite runs to a fixed point (removing an "s" can bring the next one up) ...
+	for _, cv := range sites {
+		if onePass[cv] {
+			c.R.OK("R06.4", "the scheme rewrite is repeated until nothing is left to rewrite", p.Pos(cv.Pos()), "one pass over the matches of scheme+\"s+\": nothing is left to rewrite")
+			continue
+		}
+		from, _ := core.ConstString(cv.Call.Args[1])
+		fix := false
+		for _, ft := range core.FactsAt(cv.Block()) {
+			if call, isCall := ft.Cond.(*ssa.Call); isCall && ft.Truth && core.StaticCalleeName(&call.Call) == "strings.Contains" {
+				if k, isK := core.ConstString(call.Call.Args[1]); isK && k == from {
+					fix = true
+				}
+			}
+		}
+		c.R.Check(fix, "R06.4", "the scheme rewrite is repeated until nothing is left to rewrite", p.Pos(cv.Pos()), "ReplaceAll runs in a loop guarded by strings.Contains of the same constant",
+			"one pass of the rewrite can leave a new occurrence behind (\"httpss\" -> \"https\"): tokenizing the rewritten word again changes it, so the normalised text does not match like the original")
+	}
+	// ... and is applied to the cleaned word too: stripping punctuation can create a new occurrence
+	// ("http://spdx.org" -> "httpspdxorg")
+	if ct := p.Func(v2pkg, "cleanupToken"); ct != nil {
+		rewriteFn := map[*ssa.Function]bool{}
+		for _, cv := range sites {
+			rewriteFn[cv.Parent()] = true
+		}
+		// wordThroughRewrite(f): every word f returns went through the rewrite (in f itself or in a helper it returns
+		// the result of); constants, table entries and the number path cannot contain the scheme
+		nRet := 0
+		var through func(f *ssa.Function, depth int, report bool) bool
+		through = func(f *ssa.Function, depth int, report bool) bool {
+			if depth > 3 || len(f.Blocks) == 0 {
+				return false
+			}
+			set := map[ssa.Value]bool{}
+			for _, call := range core.CallsIn(f) {
+				cv, isCall := call.(*ssa.Call)
+				if !isCall {
+					continue
+				}
+				g := cv.Call.StaticCallee()
+				switch {
+				case g != nil && rewriteFn[g]:
+					set[cv] = true
+				case rewriteFn[f] && (isCallTo(cv, "strings.ReplaceAll") || onePass[cv]):
+					set[cv] = true
+				case g != nil && g != f && core.FuncPkgPath(g) == v2pkg && g.Signature.Results().Len() == 1 && isString(g.Signature.Results().At(0).Type()) && through(g, depth+1, false):
+					set[cv] = true
+				}
+			}
+			okAll := true
+			for _, b := range f.Blocks {
+				ret, isRet := b.Instrs[len(b.Instrs)-1].(*ssa.Return)
+				if !isRet || len(ret.Results) != 1 {
+					continue
+				}
+				r := ret.Results[0]
+				if _, isConst := r.(*ssa.Const); isConst {
+					continue
+				}
+				if ex, isEx := r.(*ssa.Extract); isEx {
+					if _, isLk := ex.Tuple.(*ssa.Lookup); isLk {
+						continue
+					}
+				}
+				if _, isLk := r.(*ssa.Lookup); isLk {
+					continue
+				}
+				numberPath := false
+				for _, ft := range core.FactsAt(b) {
+					if call, isCall := ft.Cond.(*ssa.Call); isCall && ft.Truth && core.StaticCalleeName(&call.Call) == "unicode.IsDigit" {
+						numberPath = true
+					}
+				}
+				if numberPath {
+					continue
+				}
+				dep := dependsOnAnyThroughPhi(r, set, 0)
+				if report {
+					nRet++
+					c.R.Check(dep, "R06.4", "cleanupToken: the cleaned word passes through the scheme rewrite before it is returned", p.Pos(ret.Pos()), "the returned word is the result of the rewrite on every path",
+						"stripping the punctuation out of a URL can create a new \"https\" (\"http://spdx.org\" -> \"httpspdxorg\") that the rewrite, applied only to the raw word, never sees: Normalize writes that word out and tokenizing it again rewrites it, so the normalised text matches differently from the original")
+				}
+				if !dep {
+					okAll = false
+				}
+			}
+			return okAll
+		}
+		through(ct, 0, true)
+		c.R.RequireMin("R06.4", "word-returning paths of cleanupToken", nRet, 1)
+	}
+	if okAll {
+		why = fmt.Sprintf("%d strings.ReplaceAll site(s) on the word that is interned", len(sites))
+	}
+	c.R.Check(okAll, "R06.4", "every occurrence of the https scheme inside a token is rewritten, idempotently", pos, why, why+": a URL whose scheme is not at the start of the token (e.g. \"(https://...\") is not normalised")
 }
 
 // checkCRBeforeHyphenJoin: R06.11. A word split with a trailing hyphen is put together again when the line feed finds the
